@@ -184,7 +184,7 @@ fn space(k: u64, maxlen: u32) -> u64 {
 }
 
 pub fn run(ctx: &Ctx) -> i32 {
-    let l_base = std::env::var("C20_L").ok().and_then(|s| s.parse().ok()).unwrap_or(ctx.tier.pick(6u32, 8u32));
+    let l_base = std::env::var("C20_L").ok().and_then(|s| s.parse().ok()).unwrap_or(ctx.tier.pick(7u32, 8u32));
     let l_ext = ctx.tier.pick(4u32, 5u32);
     let mut rep = Report::new("exploration");
     let n1 = space(BASE.len() as u64, l_base);
